@@ -200,27 +200,42 @@ def use_kind(scope):
     return base + ("-block" if scope.kind == "block" else "")
 
 
-def expected_kind(d):
+def expected_kinds(d):
+    """root-cause qualified kinds of the expected declaration, most specific first; the last one is the plain
+    kind (where-kind)."""
     if d is None:
-        return "unresolved"
+        return ["unresolved"]
     where = "module" if d.scope.kind == "module" else ("function" if d.scope.kind == "function" else "block")
+    out = []
     if d.written_before_decl and d.scope.kind != "module":
-        return "variable-assigned-before-its-declaration-in-the-function"
+        out.append("variable-assigned-before-its-declaration-in-the-function")
     if d.kind in ("var", "function", "param"):
         if d.kind == "var" and d.in_block_only:
-            return where + "-var-first-declared-in-a-block"
-        return where + "-" + d.kind
+            out.append(where + "-var-first-declared-in-a-block")
+        out.append(where + "-" + d.kind)
+        return out
     if d.scope.kind == "block":
-        if d.scope.bk != "bare" and d.kind in ("let", "const"):
+        if d.scope.bk == "bare":
+            out.append("block-let:bare")
+        if d.kind in ("let", "const"):
             first = min(ln for ln, _ in d.lines)
             for s in d.scope.chain()[1:]:
                 o = s.decls.get(d.name)
                 if o is not None and o.kind in ("let", "const") and min(ln for ln, _ in o.lines) < first:
-                    return "block-let-shadowing-earlier-outer-let"
+                    out.append("block-let-shadowing-earlier-outer-let")
+                    break
                 if s.kind == "function":
                     break
-        return "block-%s:%s" % ("let" if d.kind in ("let", "const") else d.kind, d.scope.bk)
-    return where + "-" + ("let" if d.kind in ("let", "const") else d.kind)
+        base = "block-%s:%s" % ("let" if d.kind in ("let", "const") else d.kind, d.scope.bk)
+        if base not in out:
+            out.append(base)
+        return out
+    out.append(where + "-" + ("let" if d.kind in ("let", "const") else d.kind))
+    return out
+
+
+def expected_kind(d):
+    return expected_kinds(d)[-1]
 
 
 # ---------------------------------------------------------------------------------------------
@@ -314,40 +329,44 @@ def describe_row(bind, d, prog):
     return prog.decl_at.get((d["line"], d["name"], "param" if d["op"] == "parameter_decl" else "decl"))
 
 
-def chosen_kind(d, md, use_scope, bind=None):
+def chosen_kinds(d, md, use_scope, bind=None):
+    """classifications of lian's answer relative to the use, most specific first"""
     if d["kind"] == "unresolved":
-        return "unresolved"
+        return ["unresolved"]
     if d["kind"] != "decl":
-        return d["kind"]
+        return [d["kind"]]
+    out = []
     if bind is not None and md is not None:
         # where the row physically sits: a `var` that lian left inside a block
         blocks, at_top = bind.block_chain(d["stmt_id"])
         if blocks:
             use_lines = {s.line for s in use_scope.chain() if s.kind == "block"}
             if blocks[0][1] not in use_lines and md.scope.kind != "block":
-                return "non-enclosing-block:top-level" if at_top else "non-enclosing-block:var-left-in-block"
+                out.append("non-enclosing-block:top-level" if at_top else "non-enclosing-block:var-left-in-block")
     if md is None:
-        if d.get("attrs") and "global" in d["attrs"]:
-            return "implicit-global-row"
-        return "unknown-row"
+        out.append("implicit-global-row" if (d.get("attrs") and "global" in d["attrs"]) else "unknown-row")
+        return out
     chain = use_scope.chain()
     if md.scope in chain:
         if md.scope is use_scope:
-            return "same-scope"
-        if md.scope.kind == "module":
-            return "module"
-        if md.scope.kind == "function":
-            return "own-function" if md.scope is use_scope.function() else "enclosing-function"
-        return "enclosing-block"
-    if md.scope.kind == "block":
+            out.append("same-scope")
+        elif md.scope.kind == "module":
+            out.append("module")
+        elif md.scope.kind == "function":
+            out.append("own-function" if md.scope is use_scope.function() else "enclosing-function")
+        else:
+            out.append("enclosing-block")
+    elif md.scope.kind == "block":
         if md.scope.bk == "bare":
-            return "non-enclosing-block:bare"
+            out.append("non-enclosing-block:bare")
         if md.scope.top_level():
-            return "non-enclosing-block:top-level"
-        return "non-enclosing-block"
-    if md.scope.kind == "function":
-        return "non-enclosing-function"
-    return "other"
+            out.append("non-enclosing-block:top-level")
+        out.append("non-enclosing-block")
+    elif md.scope.kind == "function":
+        out.append("non-enclosing-function")
+    else:
+        out.append("other")
+    return out
 
 
 def compare(unit, prog, bind, lang="javascript"):
@@ -366,7 +385,7 @@ def compare(unit, prog, bind, lang="javascript"):
             stats["unobserved:" + occ.role] += 1
             continue
         stats["compared"] += 1
-        ek = expected_kind(exp)
+        eks = expected_kinds(exp)
         for s in syms:
             stats["symbols"] += 1
             d = bind.describe(s["symbol_id"])
@@ -384,7 +403,8 @@ def compare(unit, prog, bind, lang="javascript"):
                     exp.kind, exp.name, exp.scope.kind + (":" + exp.scope.bk if exp.scope.bk else ""),
                     exp.scope.line, ",".join(str(l) for l, _ in exp.lines))
             if not ok:
-                ck = chosen_kind(d, md, occ.scope, bind)
+                from harness import c05_py
+                ck, ek = c05_py.pick_signature(lang, use_kind(occ.scope), chosen_kinds(d, md, occ.scope, bind), eks)
                 got = "unresolved" if d["kind"] == "unresolved" else (
                     "%s %s at line %d%s" % (d.get("op"), d.get("name"), d.get("line", -1),
                                             " (%s %s at line %d)" % (md.kind, md.scope.kind + (":" + md.scope.bk if md.scope.bk else ""), md.scope.line)
